@@ -37,6 +37,15 @@ AXIOM_WHITELIST = {
     "FunctionalExtensionality.functional_extensionality_dep",
     "Classical_Prop.classic",
 }
+# Coq's primitive floats and 63-bit integers (kernel primitives, printed by Print Assumptions) and the standard library's
+# axiomatic specification of the primitive-float operations (Coq.Floats.FloatAxioms), used through Flocq.IEEE754.PrimFloat
+FLOAT_AXIOMS = {
+    "PrimFloat.float", "PrimInt63.int", "PrimInt63.eqb", "PrimInt63.land", "PrimInt63.lor", "PrimInt63.lsl", "PrimInt63.lsr",
+    "PrimInt63.sub", "abs", "add", "div", "eqb", "frshiftexp", "ldshiftexp", "leb", "ltb", "mul", "normfr_mantissa", "of_uint63",
+    "opp", "sqrt", "sub",
+    "Prim2SF_SF2Prim", "Prim2SF_valid", "SF2Prim_Prim2SF", "abs_spec", "add_spec", "div_spec", "eqb_spec", "leb_spec", "ltb_spec",
+    "mul_spec", "opp_spec", "sqrt_spec", "sub_spec",
+}
 
 
 def sh(cmd, timeout=600, cwd=None, env=None, input=None):
@@ -173,7 +182,7 @@ def scan_forbidden():
     return hits
 
 
-def check_props(prop_file, timeout=900):
+def check_props(prop_file, timeout=900, extra_axioms=()):
     """Compile coq/Props/<prop_file>.v (its dependencies must be built) and collect, per theorem, the
     Print Assumptions verdict.  Returns dict(ok, obligations=[{name, closed, axioms}], log)."""
     src = open(os.path.join(COQ, "Props", prop_file + ".v")).read()
@@ -194,8 +203,8 @@ def check_props(prop_file, timeout=900):
             if c.startswith("Closed"):
                 obligations.append({"name": nm, "closed": True, "axioms": [], "ok": True})
             else:
-                axs = re.findall(r"^([A-Za-z0-9_.']+)\s*:", c, re.M)
-                bad = [a for a in axs if a not in AXIOM_WHITELIST]
+                axs = [a for a in re.findall(r"^([A-Za-z0-9_.']+)\s*(?::|$)", c, re.M) if a != "Axioms"]
+                bad = [a for a in axs if a not in AXIOM_WHITELIST and a not in extra_axioms]
                 obligations.append({"name": nm, "closed": False, "axioms": axs, "ok": not bad})
         for nm in names:
             if nm not in printed:
